@@ -13,7 +13,7 @@ structure InvE (s : St) : Prop where
   errLate : ∀ v pc, (v, pc) ∈ s.workers → ErrPc pc → Ev.finish v true ∈ s.log
   errExitsFin : ∀ v ∈ s.errExits, Ev.finish v true ∈ s.log
   firstErrLast : s.firstErr = s.errExits.getLast?
-  cancelledIff : s.cancelled = !s.errExits.isEmpty
+  cancelledIff : s.cancelled = (s.extCancelled || !s.errExits.isEmpty)
   errAccounted : ∀ v, Ev.finish v true ∈ s.log → (∃ pc, (v, pc) ∈ s.workers ∧ ErrPc pc) ∨ v ∈ s.errExits
 
 theorem init_invE (g : Graph) : InvE (init g) := by
@@ -24,14 +24,17 @@ theorem init_invE (g : Graph) : InvE (init g) := by
 
 /-- error bookkeeping changes only when a worker whose visitor failed returns to the errgroup -/
 theorem step_errs {g : Graph} {lim : Option Nat} {s s' : St} {l : Label} (h : Step g lim s l s') :
-    (s'.errExits = s.errExits ∧ s'.firstErr = s.firstErr ∧ s'.cancelled = s.cancelled) ∨
+    (s'.errExits = s.errExits ∧ s'.firstErr = s.firstErr ∧ s'.cancelled = s.cancelled ∧ s'.extCancelled = s.extCancelled) ∨
     (∃ v, l = .wExit v ∧ (v, WPc.sent true) ∈ s.workers ∧ s'.errExits = v :: s.errExits ∧
-      s'.firstErr = (match s.firstErr with | some x => some x | none => some v) ∧ s'.cancelled = true) := by
+      s'.firstErr = (match s.firstErr with | some x => some x | none => some v) ∧ s'.cancelled = true ∧
+      s'.extCancelled = s.extCancelled) ∨
+    (l = .extCancel ∧ s'.errExits = s.errExits ∧ s'.firstErr = s.firstErr ∧ s'.cancelled = true ∧ s'.extCancelled = true) := by
   cases h with
   | @wExit v e hw =>
     cases e with
     | false => left; simp
-    | true => right; exact ⟨v, rfl, mem_of_wpc hw, by simp, rfl, by simp⟩
+    | true => right; left; exact ⟨v, rfl, mem_of_wpc hw, by simp, rfl, by simp, rfl⟩
+  | extCancel _ => right; right; exact ⟨rfl, rfl, rfl, rfl, rfl⟩
   | _ => left; simp
 
 theorem getLast?_cons_of_ne_nil {α} (a : α) {l : List α} (h : l ≠ []) : (a :: l).getLast? = l.getLast? := by
@@ -91,7 +94,7 @@ theorem invE_step {g : Graph} {lim : Option Nat} {s s' : St} {l : Label}
     rcases hlog with e | ⟨v, _, _, _, e⟩ | ⟨v, b, _, _, e⟩ <;> rw [e] <;> simp [hx]
   have hexits_sub : ∀ x, x ∈ s.errExits → x ∈ s'.errExits := by
     intro x hx
-    rcases herr with ⟨e, _, _⟩ | ⟨v, _, _, e, _, _⟩ <;> rw [e] <;> simp [hx]
+    rcases herr with ⟨e, _, _, _⟩ | ⟨v, _, _, e, _, _, _⟩ | ⟨_, e, _, _, _⟩ <;> rw [e] <;> simp [hx]
   refine ⟨?_, ?_, ?_, ?_, ?_⟩
   · -- errLate
     intro u pc hu he
@@ -119,14 +122,17 @@ theorem invE_step {g : Graph} {lim : Option Nat} {s s' : St} {l : Label}
         exact hmem_sub _ (hE.errLate u _ hw (.inr (.inl rfl)))
   · -- errExitsFin
     intro u hu
-    rcases herr with ⟨e, _, _⟩ | ⟨v, _, hw, e, _, _⟩
+    rcases herr with ⟨e, _, _, _⟩ | ⟨v, _, hw, e, _, _, _⟩ | ⟨_, e, _, _, _⟩
     · rw [e] at hu; exact hmem_sub _ (hE.errExitsFin u hu)
     · rw [e, List.mem_cons] at hu
       rcases hu with rfl | hu
       · exact hmem_sub _ (hE.errLate _ _ hw (.inr (.inr rfl)))
       · exact hmem_sub _ (hE.errExitsFin u hu)
+    · rw [e] at hu; exact hmem_sub _ (hE.errExitsFin u hu)
   · -- firstErrLast
-    rcases herr with ⟨e1, e2, _⟩ | ⟨v, _, _, e1, e2, _⟩
+    rcases herr with ⟨e1, e2, _, _⟩ | ⟨v, _, _, e1, e2, _, _⟩ | ⟨_, e1, e2, _, _⟩
+    · rw [e1, e2]; exact hE.firstErrLast
+    rotate_left
     · rw [e1, e2]; exact hE.firstErrLast
     · rw [e1, e2, hE.firstErrLast]
       cases hx : s.errExits with
@@ -137,9 +143,10 @@ theorem invE_step {g : Graph} {lim : Option Nat} {s s' : St} {l : Label}
         | some x => rfl
         | none => simp at hl
   · -- cancelledIff
-    rcases herr with ⟨e1, _, e3⟩ | ⟨v, _, _, e1, _, e3⟩
-    · rw [e1, e3]; exact hE.cancelledIff
-    · rw [e1, e3]; simp
+    rcases herr with ⟨e1, _, e3, e4⟩ | ⟨v, _, _, e1, _, e3, e4⟩ | ⟨_, e1, _, e3, e4⟩
+    · rw [e1, e3, e4]; exact hE.cancelledIff
+    · rw [e1, e3, e4]; simp
+    · rw [e1, e3, e4]; simp
   · -- errAccounted
     intro u hu
     have old : Ev.finish u true ∈ s.log → (∃ pc, (u, pc) ∈ s'.workers ∧ ErrPc pc) ∨ u ∈ s'.errExits := by
@@ -148,7 +155,7 @@ theorem invE_step {g : Graph} {lim : Option Nat} {s s' : St} {l : Label}
       · rcases step_err_keep h hA u pc hpc he with h1 | ⟨hl, hw⟩
         · exact .inl h1
         · right
-          rcases herr with ⟨e, _, _⟩ | ⟨v, hl2, _, e, _, _⟩
+          rcases herr with ⟨e, _, _, _⟩ | ⟨v, hl2, _, e, _, _, _⟩ | ⟨hl2, _, _, _, _⟩
           · subst hl
             cases h with
             | @wExit _ b hw2 =>
@@ -156,6 +163,7 @@ theorem invE_step {g : Graph} {lim : Option Nat} {s s' : St} {l : Label}
               cases this
               simp
           · rw [hl] at hl2; cases hl2; rw [e]; simp
+          · rw [hl] at hl2; cases hl2
       · exact .inr (hexits_sub u hx)
     rcases hlog with e | ⟨v, _, _, _, e⟩ | ⟨v, b, hl, hw, e⟩
     · rw [e] at hu; exact old hu
@@ -178,10 +186,14 @@ structure InvS (g : Graph) (lim : Option Nat) (s : St) : Prop where
   semLe : ∀ l, lim = some l → sem s ≤ l + 1
   /-- the coordinator ends only on cancellation or after it has received every vertex -/
   cDeadWhy : s.cAlive = false → s.cancelled = true ∨ ∀ v ∈ g.verts, v ∈ s.received
+  /-- … and when it ends on cancellation the caller has already left the extremities loop (`<-spawned`), so nobody
+  can start a worker any more and the workers alive then fit the limit -/
+  cDeadBound : s.cAlive = false → (∀ v ∈ g.verts, v ∈ s.received) ∨ (s.m = none ∧ ∀ l, lim = some l → s.workers.length ≤ l)
 
 theorem init_invS (g : Graph) (lim : Option Nat) : InvS g lim (init g) := by
-  refine ⟨?_, ?_⟩
+  refine ⟨?_, ?_, ?_⟩
   · intro l _; simp [sem, init]
+  · intro h; simp [init] at h
   · intro h; simp [init] at h
 
 theorem setW_length (ws : List (V × WPc)) (v : V) (pc : WPc) : (setW ws v pc).length = ws.length := by
@@ -196,7 +208,7 @@ theorem step_sem {g : Graph} {lim : Option Nat} {s s' : St} {l : Label} (h : Ste
     have := List.length_filter_le (fun (p : V × WPc) => decide (p.1 ≠ v)) s.workers
     omega
   | cRecvLast ha _ _ _ => left; simp [sem, ha]
-  | cCtxDone ha _ _ => left; simp [sem, ha]
+  | cCtxDone ha _ _ _ => left; simp [sem, ha]
   | _ => left; simp [sem, setW_length]
 
 /-- a duplicate-free list inside `verts` of the same length contains every vertex -/
@@ -222,9 +234,36 @@ theorem step_received_sub {g : Graph} {lim : Option Nat} {s s' : St} {l : Label}
     (hu : u ∈ s.received) : u ∈ s'.received := by
   cases h <;> simp [hu]
 
+theorem step_m_none {g : Graph} {lim : Option Nat} {s s' : St} {l : Label} (h : Step g lim s l s')
+    (hm : s.m = none) : s'.m = none := by
+  have sched : ∀ {w : Who} {y : Sched} (x : Option Sched) (s1 : St), getSched s w = some y → s1.m = s.m →
+      (putSched s1 w x).m = none := by
+    intro w y x s1 hs h1
+    cases w with
+    | M => simp [getSched, hm] at hs
+    | C => simp [putSched, h1, hm]
+  cases h with
+  | schedNext hs _ => exact sched _ s hs rfl
+  | schedEnd hs => exact sched _ s hs rfl
+  | readyT hs _ => exact sched _ s hs rfl
+  | readyF hs _ => exact sched _ s hs rfl
+  | enterT hs _ => exact sched _ _ hs rfl
+  | enterF hs _ => exact sched _ s hs rfl
+  | spawn hs _ => exact sched _ _ hs rfl
+  | _ => exact hm
+
+theorem step_workers_len {g : Graph} {lim : Option Nat} {s s' : St} {l : Label} (h : Step g lim s l s') :
+    s'.workers.length ≤ s.workers.length ∨ ∃ w y, getSched s w = some y := by
+  cases h with
+  | spawn hs _ => exact .inr ⟨_, _, hs⟩
+  | @wExit v e _ =>
+    left
+    exact List.length_filter_le (fun (p : V × WPc) => decide (p.1 ≠ v)) s.workers
+  | _ => left; simp [setW_length]
+
 theorem invS_step {g : Graph} {lim : Option Nat} {s s' : St} {l : Label} (hg : GraphOK g)
     (h : Step g lim s l s') (hA : InvA s) (hB : InvB g s) (hS : InvS g lim s) : InvS g lim s' := by
-  refine ⟨?_, ?_⟩
+  refine ⟨?_, ?_, ?_⟩
   · intro n hn
     rcases step_sem h with h1 | ⟨hfree, h1⟩
     · have := hS.semLe n hn; omega
@@ -249,7 +288,41 @@ theorem invS_step {g : Graph} {lim : Option Nat} {s s' : St} {l : Label} (hg : G
           exact (List.nodup_append.mp this).2.1
         refine all_of_length hnd (fun u hu => hB'.recvSub u (.inr hu)) ?_
         simp only [List.length_cons]; omega
-      | cCtxDone _ _ hcan => exact .inl hcan
+      | cCtxDone _ _ hcan _ => exact .inl hcan
+      | _ => simp_all
+  · intro ha'
+    cases ha : s.cAlive with
+    | false =>
+      rcases hS.cDeadBound ha with hall | ⟨hm, hlen⟩
+      · exact .inl (fun v hv => step_received_sub h v (hall v hv))
+      · right
+        refine ⟨step_m_none h hm, ?_⟩
+        intro n hn
+        rcases step_workers_len h with h1 | ⟨w, y, hw⟩
+        · have := hlen n hn; omega
+        · cases w with
+          | M => simp [getSched, hm] at hw
+          | C => simp [getSched, ha] at hw
+    | true =>
+      cases h with
+      | @cRecvLast v rest _ hc hch hex =>
+        left
+        have ⟨he, h1⟩ := hB.expectEq ha
+        have hA' := invA_step (.cRecvLast (g := g) (lim := lim) ha hc hch hex) hA
+        have hB' := invB_step hg (.cRecvLast (g := g) (lim := lim) ha hc hch hex) hA hB
+        have hnd : (v :: s.received).Nodup := by
+          have := hA'.chRecvNodup
+          exact (List.nodup_append.mp this).2.1
+        refine all_of_length hnd (fun u hu => hB'.recvSub u (.inr hu)) ?_
+        simp only [List.length_cons]; omega
+      | cCtxDone _ _ _ hm =>
+        right
+        refine ⟨hm, ?_⟩
+        intro n hn
+        have := hS.semLe n hn
+        simp only [sem, ha, if_true] at this
+        show s.workers.length ≤ n
+        omega
       | _ => simp_all
 
 /-! ### everything together -/
